@@ -194,6 +194,11 @@ func GenWPlusCase(d *D, cfg BundleCfg, allowed []string) *WPlusCase {
 			default:
 				paths[key] = O{"get": O{"responses": O{"default": O{"$ref": "gone.json#/responses/r"}}}}
 			}
+			if len(c.Aux) == 0 && !c.Opts.Expand && d.Bool() {
+				// every option must leave the outcome an error (the name layer does not matter for that)
+				c.Opts.KeepNames = true
+				d.Label("wplus:dangling-shared-object-ref+KeepNames")
+			}
 		case "ref-in-simple-items":
 			paths := Obj(root["paths"])
 			if paths == nil {
